@@ -191,6 +191,22 @@ fn main() {
                 }
             }
         }
+        // Per-queue maxima: queue 1 asked for with 8 entries after queue 0 was created, the two
+        // queues allowing different sizes (not on PCI, whose register model copies the maxima when
+        // the world is built).
+        for tk in ALL_TKINDS {
+            if tk == vlab::drivers::TKind::Pci {
+                continue;
+            }
+            let part = format!("registration:{}", tk.name());
+            for (max0, max1) in [(256u32, 4u32), (4, 256), (8, 8), (256, 7), (4, 8)] {
+                let v = vlab::c06::run_refusal_second::<8>(tk, max0, max1);
+                ev += 1;
+                for (k, d) in v {
+                    c.add_violation(Violation::new("C06", k, format!("{} transport, maxima {} (queue 0) and {} (queue 1): {}", tk.name(), max0, max1, d)), &part, J::obj().set("kind", J::s("refusal-second")).set("transport", J::s(tk.name())).set("max0", J::i(max0)).set("max1", J::i(max1)), vec![]);
+                }
+            }
+        }
         // DMA memory at and above 2^44.
         for tk in ALL_TKINDS {
             let part = format!("registration:{}", tk.name());
@@ -214,7 +230,7 @@ fn main() {
                 }
             }
         }
-        c.add_sweep("registration: VirtQueue::new (N = 1, 8, 64, 256; 8 flag combinations) on the model, MMIO legacy, MMIO modern and PCI transports with the queue's regions starting in each of 7 different 4 GiB windows and two platform address skews; the addresses the register-level device received are held against the layout oracle; queue 1 of a two-queue device also created a second time after a re-initialisation; N = 256 and 1024 with the first region starting 1-5 pages below a 4 GiB boundary; N = 8 against 16 device maxima including values that are not powers of two; a second creation of a live queue; DMA memory above 2^44", ev, classes.len() as u64, true, J::obj());
+        c.add_sweep("registration: VirtQueue::new (N = 1, 8, 64, 256; 8 flag combinations) on the model, MMIO legacy, MMIO modern and PCI transports with the queue's regions starting in each of 7 different 4 GiB windows and two platform address skews; the addresses the register-level device received are held against the layout oracle; queue 1 of a two-queue device also created a second time after a re-initialisation; N = 256 and 1024 with the first region starting 1-5 pages below a 4 GiB boundary; N = 8 against 16 device maxima including values that are not powers of two; queue 1 against its own maximum after queue 0 (with another maximum) was created; a second creation of a live queue; DMA memory above 2^44", ev, classes.len() as u64, true, J::obj());
     }
     c.add_sample(J::obj().set("case", J::s("N=256 legacy=true indirect=false event_idx=true ap=false in_use=false max=256 -> created; queue_set(desc=P, driver=P+4096, device=P+8192), 3 pages freed once")));
     c.finish();
